@@ -1,5 +1,6 @@
 import Pyrealb.Lemmas.HeapClone
 import Pyrealb.Lemmas.HeapCloneOps
+import Pyrealb.Lemmas.HeapAgreeOps
 /-! # C13 — clones and separate expressions are independent; arguments are not captured
 
 Property theorems on the store model of C11 (`Model/Heap*`) extended with `clone` and caller-owned argument objects
@@ -11,10 +12,11 @@ receiver), monitored by the dynamic oracle of harness/props/C13.py.
 * `op_frame` — holds: every modelled operation writes only inside a closed set that contains its receiver (its
   connected tree); link runs are those of the fragment (`planLocal`, checked on every state by the correspondence).
 * `caller_unchanged`, `no_capture` — hold (the operations read the caller's object and keep values).
-* `interleaving_independent` — the statement "each copy ends as it would alone" is NOT closed (it needs, besides the
-  frame, that an operation READS only inside its tree, and invariance under the renaming of handles allocated in
-  between); `interleaving_independent_partial` proves, by induction over any interleaved history on two separate trees,
-  that no step on one side changes anything of the other side. -/
+* `interleaving_independent` — holds: by induction over any interleaved history on two separate trees, each tree ends with
+  the abstraction it has after its own operations alone.  It rests on the frame (`op_frame`) and on read-locality
+  (`Lemmas/HeapAgree*`: the link plan of a node and every operation depend only on the content of the connected tree;
+  the record a link run creates for a CP/coord is named after the node, so no renaming is needed).
+  `interleaving_independent_partial` (no step on one side changes anything of the other side) is kept. -/
 namespace Pyrealb.C13
 open Pyrealb Pyrealb.Heap
 
@@ -60,10 +62,10 @@ def clone_disjoint : Prop :=
     (∀ i, i < h.n → (cloneRegion h C).node i = h.node i ∧ (cloneRegion h C).peng i = h.peng i ∧
         (cloneRegion h C).taux i = h.taux i ∧ (cloneRegion h C).cod i = h.cod i ∧
         (cloneRegion h C).subject i = h.subject i) ∧
-    (∀ r, r < h.nRec → (cloneRegion h C).prec r = h.prec r) ∧
+    (∀ r, r < ownRec h.nRec ∨ r % 2 = 1 → (cloneRegion h C).prec r = h.prec r) ∧
     (∀ r, r < h.nTRec → (cloneRegion h C).trec r = h.trec r) ∧
     (∀ x ∈ C, h.n ≤ (cloneMaps h C).ρ x ∧ ∀ y ∈ nbrs (cloneRegion h C) ((cloneMaps h C).ρ x), h.n ≤ y) ∧
-    (∀ x ∈ C, ∀ r, (cloneRegion h C).peng ((cloneMaps h C).ρ x) = some r → h.nRec ≤ r) ∧
+    (∀ x ∈ C, ∀ r, (cloneRegion h C).peng ((cloneMaps h C).ρ x) = some r → ownRec h.nRec ≤ r ∧ r % 2 = 0) ∧
     (∀ x ∈ C, ∀ r, (cloneRegion h C).taux ((cloneMaps h C).ρ x) = some r → h.nTRec ≤ r)
 
 theorem clone_disjoint_holds : clone_disjoint := by
@@ -257,19 +259,17 @@ theorem no_capture_holds : no_capture := by
 
 /-! ## interleavings on two separate trees -/
 
-/-- two sets of nodes with nothing in common: no node, and no record that both point to; the records in use exist -/
+/-- two sets of nodes with nothing in common: no node, no record that both point to, and no record of one side that
+    is the record a link run would create for a node of the other side -/
 structure Sep (h : Heap) (A B : List Nat) : Prop where
   nodes : ∀ x ∈ A, ¬ x ∈ B
   recs : ∀ r, RecOf h A r → ¬ RecOf h B r
   trecs : ∀ r, TRecOf h A r → ¬ TRecOf h B r
-  boundA : ∀ r, RecOf h A r → r < h.nRec
-  boundB : ∀ r, RecOf h B r → r < h.nRec
-  tboundA : ∀ r, TRecOf h A r → r < h.nTRec
-  tboundB : ∀ r, TRecOf h B r → r < h.nTRec
+  freshA : ∀ r, RecOf h A r → ∀ y ∈ B, r ≠ freshRec y
+  freshB : ∀ r, RecOf h B r → ∀ y ∈ A, r ≠ freshRec y
 
 theorem Sep.symm {h : Heap} {A B : List Nat} (s : Sep h A B) : Sep h B A :=
-  ⟨fun x hx hA => s.nodes x hA hx, fun r hB hA => s.recs r hA hB, fun r hB hA => s.trecs r hA hB,
-   s.boundB, s.boundA, s.tboundB, s.tboundA⟩
+  ⟨fun x hx hA => s.nodes x hA hx, fun r hB hA => s.recs r hA hB, fun r hB hA => s.trecs r hA hB, s.freshB, s.freshA⟩
 
 /-- the part of the store that belongs to the nodes `A` is the same in `h` and `h'` -/
 structure RegionEq (A : List Nat) (h h' : Heap) : Prop where
@@ -288,8 +288,8 @@ theorem regionEq_of_frame {h h' : Heap} {A B : List Nat} (sep : Sep h A B) (f : 
   taux x hx := f.taux x (sep.nodes x hx)
   cod x hx := f.cod x (sep.nodes x hx)
   subject x hx := f.subject x (sep.nodes x hx)
-  prec r hr := f.prec r (sep.boundA r hr) (sep.recs r hr)
-  trec r hr := f.trec r (sep.tboundA r hr) (sep.trecs r hr)
+  prec r hr := f.prec r (sep.recs r hr) (sep.freshA r hr)
+  trec r hr := f.trec r (sep.trecs r hr)
 
 theorem recOf_regionEq {h h' : Heap} {A : List Nat} (e : RegionEq A h h') (r : Nat) : RecOf h' A r ↔ RecOf h A r := by
   constructor
@@ -305,29 +305,22 @@ theorem trecOf_regionEq {h h' : Heap} {A : List Nat} (e : RegionEq A h h') (r : 
 theorem sep_after {h h' : Heap} {A B : List Nat} (sep : Sep h A B) (clA : Closed h A) (f : Frame B h h') :
     Sep h' A B ∧ Closed h' A := by
   have e := regionEq_of_frame sep f
-  refine ⟨⟨sep.nodes, ?_, ?_, ?_, ?_, ?_, ?_⟩, ?_⟩
+  refine ⟨⟨sep.nodes, ?_, ?_, ?_, ?_⟩, ?_⟩
   · intro r hr hB
     have hrA := (recOf_regionEq e r).mp hr
-    rcases f.recOf r hB with q | q
+    rcases f.recOf r hB with q | ⟨y, hy, rfl⟩
     · exact sep.recs r hrA q
-    · have := sep.boundA r hrA; omega
+    · exact sep.freshA _ hrA y hy rfl
   · intro r hr hB
-    have hrA := (trecOf_regionEq e r).mp hr
-    rcases f.trecOf r hB with q | q
-    · exact sep.trecs r hrA q
-    · have := sep.tboundA r hrA; omega
+    exact sep.trecs r ((trecOf_regionEq e r).mp hr) (f.trecOf r hB)
   · intro r hr
-    exact Nat.lt_of_lt_of_le (sep.boundA r ((recOf_regionEq e r).mp hr)) f.nRec
-  · intro r hr
-    rcases f.recOf r hr with q | q
-    · exact Nat.lt_of_lt_of_le (sep.boundB r q) f.nRec
-    · exact q.2
-  · intro r hr
-    exact Nat.lt_of_lt_of_le (sep.tboundA r ((trecOf_regionEq e r).mp hr)) f.nTRec
-  · intro r hr
-    rcases f.trecOf r hr with q | q
-    · exact Nat.lt_of_lt_of_le (sep.tboundB r q) f.nTRec
-    · exact q.2
+    exact sep.freshA r ((recOf_regionEq e r).mp hr)
+  · intro r hr y hy
+    rcases f.recOf r hr with q | ⟨z, hz, rfl⟩
+    · exact sep.freshB r q y hy
+    · intro e2
+      have : z = y := by simp only [freshRec] at e2; omega
+      exact sep.nodes y hy (this ▸ hz)
   · intro x hx
     obtain ⟨h1, h2⟩ := clA x hx
     refine ⟨by rw [f.n]; exact h1, ?_⟩
@@ -359,8 +352,9 @@ def absAfter (h : Heap) (A : List Nat) (ops : List LOp) : Option (List AbsNode) 
 
 instance (S : List Nat) (o : LOp) : Decidable (onSide S o) := by unfold onSide; exact inferInstance
 
-/-- **C13.g** (full statement, NOT closed — see the header) an interleaved history on two separate trees leaves each
-    of them with the abstraction it has after its own operations alone -/
+/-- **C13.g** an interleaved history on two separate trees leaves each of them with the abstraction it has after its
+    own operations alone (the "alone" run starts from the same store and simply does not perform the other side's
+    operations) -/
 def interleaving_independent : Prop :=
   ∀ (h : Heap) (A B : List Nat) (ops : List LOp) (h' : Heap), Closed h A → Closed h B → Sep h A B →
     (∀ o ∈ ops, onSide A o ∨ onSide B o) → runLOps h ops = .ok h' →
@@ -390,6 +384,143 @@ theorem interleaving_independent_partial (A B : List Nat) : ∀ (ops : List LOp)
         obtain ⟨sep1, clA1⟩ := sep_after sep clA f
         exact ih h1 clA1 clB1 sep1 hrest
 
+/-- read-locality of every operation: on stores that agree on a closed set containing its receiver, an operation has the
+    same outcome and leads to stores that agree on the set again -/
+theorem runLOp_agree (h g : Heap) (A : List Nat) (o : LOp) (h' : Heap) (cl : Closed h A) (ag : Agree A h g)
+    (hs : onSide A o) (hr : runLOp h o = .ok h') : ∃ g', runLOp g o = .ok g' ∧ Agree A h' g' := by
+  cases o with
+  | opt x name val =>
+    have hx : x ∈ A := hs x (by simp [LOp.nodes])
+    simp only [runLOp, opt] at hr ⊢
+    cases hf : optSpecs.find? (fun sp => sp.name == name) with
+    | none => simp [hf] at hr
+    | some sp =>
+      simp only [hf, R.ok.injEq] at hr ⊢
+      subst hr
+      rw [ag.n]
+      exact ⟨_, rfl, agree_optRun sp val _ h g x cl ag hx⟩
+  | setProp x k v =>
+    simp only [runLOp, R.ok.injEq] at hr ⊢; subst hr
+    exact ⟨_, rfl, agree_setProp ag (hs x (by simp [LOp.nodes])) k v⟩
+  | typ x arg =>
+    simp only [runLOp, R.ok.injEq] at hr ⊢; subst hr
+    exact ⟨_, rfl, agree_typOp ag (hs x (by simp [LOp.nodes])) arg⟩
+  | add p e pos =>
+    have hp : p ∈ A := hs p (by simp [LOp.nodes])
+    have he : e ∈ A := hs e (by simp [LOp.nodes])
+    simp only [runLOp, kind_ag cl ag hp] at hr ⊢
+    split at hr
+    · rename_i hc; simp only [hc, if_true]; exact agree_phraseAdd1 cl ag hp he pos h' hr
+    · rename_i hc
+      simp only [hc, Bool.false_eq_true, if_false]
+      split at hr
+      · rename_i hc2; simp only [hc2, if_true]; exact agree_depAddNode cl ag hp he pos h' hr
+      · rename_i hc2
+        simp only [hc2, Bool.false_eq_true, if_false]
+        split at hr
+        · simp at hr
+        · rename_i hc3
+          simp only [hc3, Bool.false_eq_true, if_false, R.ok.injEq] at hr ⊢
+          subst hr
+          exact ⟨_, rfl, agree_warn ag 1⟩
+  | relink p => exact agree_linkR cl ag (hs p (by simp [LOp.nodes])) h' hr
+
+/-- stores that agree on `A` give `A` the same abstraction -/
+theorem absRegion_agree {A : List Nat} {h g : Heap} (ag : Agree A h g) : absRegion g A = absRegion h A := by
+  unfold absRegion
+  apply List.map_congr_left
+  intro x hx
+  have fp : ∀ r, firstWith g.peng A r = firstWith h.peng A r := by
+    intro r
+    unfold firstWith
+    have := findIdx_map (L := A) (f := id) (p := fun y => h.peng y == some r) (p' := fun y => g.peng y == some r)
+      (fun y hy => by simp [ag.peng y hy])
+    simpa using this
+  have ft : ∀ r, firstWith g.taux A r = firstWith h.taux A r := by
+    intro r
+    unfold firstWith
+    have := findIdx_map (L := A) (f := id) (p := fun y => h.taux y == some r) (p' := fun y => g.taux y == some r)
+      (fun y hy => by simp [ag.taux y hy])
+    simpa using this
+  unfold absNode
+  rw [ag.node x hx, ag.cod x hx, ag.subject x hx, ag.peng x hx, ag.taux x hx]
+  have e1 : (h.peng x).map g.prec = (h.peng x).map h.prec := by
+    cases hq : h.peng x with
+    | none => rfl
+    | some r => simp only [Option.map_some]; rw [ag.prec r ⟨x, hx, hq⟩]
+  have e2 : (h.taux x).map g.trec = (h.taux x).map h.trec := by
+    cases hq : h.taux x with
+    | none => rfl
+    | some r => simp only [Option.map_some]; rw [ag.trec r ⟨x, hx, hq⟩]
+  have e3 : (h.peng x).map (firstWith g.peng A) = (h.peng x).map (firstWith h.peng A) := by
+    cases h.peng x <;> simp [fp]
+  have e4 : (h.taux x).map (firstWith g.taux A) = (h.taux x).map (firstWith h.taux A) := by
+    cases h.taux x <;> simp [ft]
+  rw [e1, e2, e3, e4]
+
+/-- the other side of a frame: stores related by a step on `B` agree on `A` -/
+theorem agree_after_other {A B : List Nat} {h h1 t : Heap} (sep : Sep h A B) (f : Frame B h h1) (ag : Agree A h t) :
+    Agree A h1 t := by
+  have e := regionEq_of_frame sep f
+  refine ⟨ag.n.trans f.n.symm, fun x hx => (ag.node x hx).trans (e.node x hx).symm,
+    fun x hx => (ag.peng x hx).trans (e.peng x hx).symm, fun x hx => (ag.taux x hx).trans (e.taux x hx).symm,
+    fun x hx => (ag.cod x hx).trans (e.cod x hx).symm, fun x hx => (ag.subject x hx).trans (e.subject x hx).symm, ?_, ?_⟩
+  · intro r hr
+    have hr0 := (recOf_regionEq e r).mp hr
+    rw [ag.prec r hr0, e.prec r hr0]
+  · intro r hr
+    have hr0 := (trecOf_regionEq e r).mp hr
+    rw [ag.trec r hr0, e.trec r hr0]
+
+/-- one side of the theorem: the run of the `A`-operations alone, started in a store `t` that agrees with `h` on `A`,
+    succeeds and ends in a store that agrees on `A` with the end of the interleaved run -/
+theorem alone_agrees (A B : List Nat) : ∀ (ops : List LOp) (h t h' : Heap), Closed h A → Closed h B → Sep h A B →
+    Agree A h t → (∀ o ∈ ops, onSide A o ∨ onSide B o) → runLOps h ops = .ok h' →
+    ∃ t', runLOps t (ops.filter (fun o => decide (onSide A o))) = .ok t' ∧ Agree A h' t' := by
+  intro ops
+  induction ops with
+  | nil =>
+    intro h t h' _ _ _ ag _ hr
+    simp only [runLOps, R.ok.injEq] at hr; subst hr
+    exact ⟨t, rfl, ag⟩
+  | cons o os ih =>
+    intro h t h' clA clB sep ag hs hr
+    simp only [runLOps] at hr
+    cases h1r : runLOp h o with
+    | crash c => rw [h1r] at hr; simp at hr
+    | outside => rw [h1r] at hr; simp at hr
+    | ok h1 =>
+      rw [h1r] at hr
+      have hrest : ∀ o' ∈ os, onSide A o' ∨ onSide B o' := fun o' ho' => hs o' (List.mem_cons_of_mem _ ho')
+      by_cases hA : onSide A o
+      · -- a step on `A`: both runs perform it
+        obtain ⟨t1, ht1, ag1⟩ := runLOp_agree h t A o h1 clA ag hA h1r
+        obtain ⟨f, clA1⟩ := op_frame_holds h A o h1 clA hA h1r
+        obtain ⟨sep1, clB1⟩ := sep_after sep.symm clB f
+        obtain ⟨t', ht', ag'⟩ := ih h1 t1 h' clA1 clB1 sep1.symm ag1 hrest hr
+        refine ⟨t', ?_, ag'⟩
+        simp only [List.filter_cons, hA, decide_true, if_true, runLOps, ht1]
+        exact ht'
+      · -- a step on `B`: the alone run does nothing
+        have hB : onSide B o := (hs o List.mem_cons_self).resolve_left hA
+        obtain ⟨f, clB1⟩ := op_frame_holds h B o h1 clB hB h1r
+        obtain ⟨sep1, clA1⟩ := sep_after sep clA f
+        obtain ⟨t', ht', ag'⟩ := ih h1 t h' clA1 clB1 sep1 (agree_after_other sep f ag) hrest hr
+        refine ⟨t', ?_, ag'⟩
+        simp only [List.filter_cons, hA, decide_false, Bool.false_eq_true, if_false]
+        exact ht'
+
+/-- **C13.g** an interleaved history on two separate trees leaves each of them with the abstraction (tree, own props,
+    partition by shared record, record contents) it has after its own operations ALONE -/
+theorem interleaving_independent_holds : interleaving_independent := by
+  intro h A B ops h' clA clB sep hs hr
+  constructor
+  · obtain ⟨t', ht', ag'⟩ := alone_agrees A B ops h h h' clA clB sep (Agree.refl A h) hs hr
+    simp only [absAfter, ht', absRegion_agree ag']
+  · obtain ⟨t', ht', ag'⟩ := alone_agrees B A ops h h h' clB clA sep.symm (Agree.refl B h)
+      (fun o ho => (hs o ho).symm) hr
+    simp only [absAfter, ht', absRegion_agree ag']
+
 /-- corollary: whatever is done to one tree, the other keeps its abstraction -/
 theorem other_side_unchanged (A B : List Nat) (ops : List LOp) (h h' : Heap) (clA : Closed h A) (clB : Closed h B)
     (sep : Sep h A B) (hs : ∀ o ∈ ops, onSide B o) (hr : runLOps h ops = .ok h') : RegionEq A h h' := by
@@ -415,9 +546,10 @@ theorem other_side_unchanged (A B : List Nat) (ops : List LOp) (h h' : Heap) (cl
              fun r hr' => (e2.trec r ((trecOf_regionEq e1 r).mpr hr')).trans (e1.trec r hr')⟩
 
 /-- a clone and its original are separate trees: the hypothesis of the interleaving theorems holds right after `clone`
-    (for a store whose records in use exist) -/
+    (for a store whose records in use are counter records below `nRec` or records created for existing nodes) -/
 theorem clone_sep (h : Heap) (C : List Nat) (cl : Closed h C)
-    (bp : ∀ r, RecOf h C r → r < h.nRec) (bt : ∀ r, TRecOf h C r → r < h.nTRec) :
+    (wf : ∀ r, RecOf h C r → (r % 2 = 0 ∧ r < ownRec h.nRec) ∨ (r % 2 = 1 ∧ r / 2 < h.n))
+    (wt : ∀ r, TRecOf h C r → r < h.nTRec) :
     Sep (cloneRegion h C) C (C.map (cloneMaps h C).ρ) ∧ Closed (cloneRegion h C) C ∧
     Closed (cloneRegion h C) (C.map (cloneMaps h C).ρ) := by
   have iso := clone_iso_holds h C cl
@@ -426,50 +558,33 @@ theorem clone_sep (h : Heap) (C : List Nat) (cl : Closed h C)
   have oldt : ∀ x ∈ C, (cloneRegion h C).taux x = h.taux x := fun x hx => (dis.1 x (cl x hx).1).2.2.1
   have recA : ∀ r, RecOf (cloneRegion h C) C r → RecOf h C r := by
     rintro r ⟨x, hx, hr⟩; exact ⟨x, hx, by rw [← oldp x hx]; exact hr⟩
-  have trecA : ∀ r, TRecOf (cloneRegion h C) C r → TRecOf h C r := by
-    rintro r ⟨x, hx, hr⟩; exact ⟨x, hx, by rw [← oldt x hx]; exact hr⟩
-  have nR : (cloneRegion h C).nRec = h.nRec + (cloneMaps h C).R.length := rfl
-  have nT : (cloneRegion h C).nTRec = h.nTRec + (cloneMaps h C).T.length := rfl
-  refine ⟨⟨?_, ?_, ?_, ?_, ?_, ?_, ?_⟩, ?_, iso.2.2.2.2.2⟩
+  have recB : ∀ r, RecOf (cloneRegion h C) (C.map (cloneMaps h C).ρ) r → ownRec h.nRec ≤ r ∧ r % 2 = 0 := by
+    rintro r ⟨z, hz, hzr⟩
+    obtain ⟨y, hy, rfl⟩ := List.mem_map.mp hz
+    exact dis.2.2.2.2.1 y hy r hzr
+  refine ⟨⟨?_, ?_, ?_, ?_, ?_⟩, ?_, iso.2.2.2.2.2⟩
   · intro x hx hm
     obtain ⟨y, _, hy⟩ := List.mem_map.mp hm
     have := rho_fresh h C y
     have := (cl x hx).1
     omega
   · intro r hr hB
-    obtain ⟨z, hz, hzr⟩ := hB
-    obtain ⟨y, hy, rfl⟩ := List.mem_map.mp hz
-    have := dis.2.2.2.2.1 y hy r hzr
-    have := bp r (recA r hr)
-    omega
-  · intro r hr hB
-    obtain ⟨z, hz, hzr⟩ := hB
+    have := recB r hB
+    rcases wf r (recA r hr) with q | q <;> omega
+  · rintro r ⟨x, hx, hr⟩ ⟨z, hz, hzr⟩
     obtain ⟨y, hy, rfl⟩ := List.mem_map.mp hz
     have := dis.2.2.2.2.2 y hy r hzr
-    have := bt r (trecA r hr)
+    rw [oldt x hx] at hr
+    have := wt r ⟨x, hx, hr⟩
     omega
-  · intro r hr; have := bp r (recA r hr); omega
-  · rintro r ⟨z, hz, hzr⟩
+  · intro r hr z hz
     obtain ⟨y, hy, rfl⟩ := List.mem_map.mp hz
-    rw [(iso.1 y hy).2.1] at hzr
-    cases hq : h.peng y with
-    | none => simp [hq] at hzr
-    | some s0 =>
-      simp [hq] at hzr; subst hzr
-      have := idxIn_lt (mem_recsOf.mpr ⟨y, hy, hq⟩ : s0 ∈ (cloneMaps h C).R)
-      simp only [CloneMaps.σ, cloneMaps] at this ⊢
-      rw [nR]; simp only [cloneMaps]; omega
-  · intro r hr; have := bt r (trecA r hr); omega
-  · rintro r ⟨z, hz, hzr⟩
-    obtain ⟨y, hy, rfl⟩ := List.mem_map.mp hz
-    rw [(iso.1 y hy).2.2.1] at hzr
-    cases hq : h.taux y with
-    | none => simp [hq] at hzr
-    | some s0 =>
-      simp [hq] at hzr; subst hzr
-      have := idxIn_lt (mem_recsOf.mpr ⟨y, hy, hq⟩ : s0 ∈ (cloneMaps h C).T)
-      simp only [CloneMaps.τ, cloneMaps] at this ⊢
-      rw [nT]; simp only [cloneMaps]; omega
+    have := rho_fresh h C y
+    simp only [freshRec]
+    rcases wf r (recA r hr) with q | q <;> omega
+  · intro r hr y _
+    have := recB r hr
+    simp only [freshRec]; omega
   · intro x hx
     obtain ⟨h1, h2⟩ := cl x hx
     have o := dis.1 x h1
